@@ -8,6 +8,7 @@ is cut into items (one byte / one UTF-8 character). Every `get_unchecked` of the
 is a checked access returning `Except Fault`.
 -/
 import Daac.Basic
+import Daac.Gen.Consts
 namespace Daac
 
 /-- One double-array element. `base = 0` and `opos = 0` encode `None` (as in the serialised form). -/
@@ -31,7 +32,7 @@ inductive Variant where
 deriving DecidableEq, Repr
 
 /-- `INVALID_CODE` of src/charwise/mapper.rs. -/
-def invalidCode : Nat := 4294967295
+def invalidCode : Nat := Gen.invalidCode
 
 /-- The automaton: plain immutable data, as in the implementation. -/
 structure DA (V : Type) where
@@ -45,8 +46,8 @@ structure DA (V : Type) where
 
 variable {V : Type}
 
-def rootIdx : Nat := 0
-def deadIdx : Nat := 1
+def rootIdx : Nat := Gen.rootStateIdx
+def deadIdx : Nat := Gen.deadStateIdx
 
 /-- `states.get_unchecked(i)`. -/
 def DA.st (da : DA V) (i : Nat) : Except Fault St :=
